@@ -317,10 +317,10 @@ theorem dim_toData (r : Gen.GklsRaw) : (toData r).dim = r.dim := rfl
 end Gkls
 
 namespace Gkls
-/-- assemble ten blocks of ten function numbers into the full range `1..100` -/
-theorem range_blocks (P : Nat → Prop) (h : ∀ b < 10, ∀ k ∈ List.range' (10 * b + 1) 10, P k) :
+/-- assemble twenty blocks of five function numbers into the full range `1..100` -/
+theorem range_blocks5 (P : Nat → Prop) (h : ∀ b < 20, ∀ k ∈ List.range' (5 * b + 1) 5, P k) :
     ∀ k ∈ List.range' 1 100, P k := by
   intro k hk
   rw [List.mem_range'_1] at hk
-  exact h ((k - 1) / 10) (by omega) k (List.mem_range'_1.mpr ⟨by omega, by omega⟩)
+  exact h ((k - 1) / 5) (by omega) k (List.mem_range'_1.mpr ⟨by omega, by omega⟩)
 end Gkls
